@@ -652,24 +652,26 @@ structure FileAcc where
   md5 : Bytes := List.replicate 16 0
   source : Option AttrVal := none
 
+/-- the `match format.content_type { … }` of `parse_file_v5`: what one field does to the entry -/
+def FileAcc.update (acc : FileAcc) (ct : Nat) (v : AttrVal) : FileAcc :=
+  if ct = 1 then { acc with path := some v }
+  else if ct = 2 then (match v.udataValue with | some n => { acc with dirIndex := n } | none => acc)
+  else if ct = 3 then (match v.udataValue with | some n => { acc with timestamp := n } | none => acc)
+  else if ct = 4 then (match v.udataValue with | some n => { acc with size := n } | none => acc)
+  else if ct = 5 then
+    (match v with
+     | .block b => if b.length = 16 then { acc with md5 := b } else acc
+     | _ => acc)
+  else if ct = 0x2001 then { acc with source := some v }
+  else acc
+
 /-- `parse_file_v5` -/
 def parseFileV5 (e : Endian) (format : Format) :
     List EntryFormat → FileAcc → Bytes → Out (FileAcc × Bytes)
   | [], acc, bs => .ok (acc, bs)
   | (ct, form) :: fs, acc, bs => do
     let (v, bs) ← parseAttribute e format form bs
-    let acc : FileAcc :=
-      if ct = 1 then { acc with path := some v }
-      else if ct = 2 then (match v.udataValue with | some n => { acc with dirIndex := n } | none => acc)
-      else if ct = 3 then (match v.udataValue with | some n => { acc with timestamp := n } | none => acc)
-      else if ct = 4 then (match v.udataValue with | some n => { acc with size := n } | none => acc)
-      else if ct = 5 then
-        (match v with
-         | .block b => if b.length = 16 then { acc with md5 := b } else acc
-         | _ => acc)
-      else if ct = 0x2001 then { acc with source := some v }
-      else acc
-    parseFileV5 e format fs acc bs
+    parseFileV5 e format fs (acc.update ct v) bs
 
 /-- `for _ in 0..count { include_directories.push(parse_directory_v5(..)?) }` -/
 def parseDirsV5 (e : Endian) (format : Format) (fmt : List EntryFormat) :
